@@ -497,6 +497,9 @@ impl Engine for AccessSim {
 }
 
 fn lang_candidate(rng: &mut Rng, a: &ArgSpec) -> B {
+    if matches!(a.action, Action::SetTrue | Action::SetFalse) {
+        return B::s(*rng.pick(&["true", "false", "TRUE", "False", "1", "0", "yes", "no", "on", "off", "t", "", " true", "y"]));
+    }
     let flip_case = |s: &str, rng: &mut Rng| -> String { s.chars().map(|c| if rng.coin() { c.to_ascii_uppercase() } else { c.to_ascii_lowercase() }).collect() };
     // ASCII case differs in bit 0x20 -- but only for letters: `-` vs CR, `_` vs DEL, `0` vs DLE are different
     // characters, not case variants
@@ -576,6 +579,45 @@ fn lang_candidate(rng: &mut Rng, a: &ArgSpec) -> B {
 /// One candidate against one argument's value parser in isolation (a fresh single-argument command):
 /// accepted iff the independent reading admits it, and then the typed value equals that reading.
 fn lang_probe(a: &ArgSpec, cand: &B, via: u8) -> Option<String> {
+    if matches!(a.action, Action::SetTrue | Action::SetFalse) {
+        // a switch reads a value only from its environment variable, through the strict boolean parser
+        if cand.0.contains(&0) {
+            return None;
+        }
+        const PROBE_ENV: &str = "CLAPSIM_C04_PROBE";
+        let mut iso = ArgSpec::new("probe", a.action);
+        iso.long = Some("probe".into());
+        iso.env = Some(PROBE_ENV.into());
+        iso.ignore_case = a.ignore_case;
+        std::env::set_var(PROBE_ENV, cand.os());
+        let spec = CmdSpec { name: "prog".into(), args: vec![iso], ..Default::default() };
+        let mut cmd = build_cmd(&spec);
+        std::env::remove_var(PROBE_ENV);
+        let r = match catch(|| cmd.try_get_matches_from_mut(vec![OsString::from("prog")])) {
+            Ok(r) => r,
+            Err(p) => return Some(format!("parsing the environment value {} for a {:?} switch panicked: {} at {}", cand.esc(), a.action, p.msg, p.loc)),
+        };
+        let want = match &cand.0[..] {
+            b"true" => Some(true),
+            b"false" => Some(false),
+            _ => None,
+        };
+        return match (r, want) {
+            (Ok(m), Some(w)) => match m.try_get_one::<bool>("probe") {
+                Ok(Some(v)) if *v == w => None,
+                other => Some(format!("environment value {} for a {:?} switch: typed value {:?}, the literal reads {w}", cand.esc(), a.action, other.map(|o| o.copied()).map_err(|e| err_kind(&e)))),
+            },
+            (Ok(_), None) => Some(format!("environment value {} is accepted for a {:?} switch but is not one of the literals `true` / `false`", cand.esc(), a.action)),
+            (Err(e), Some(_)) => Some(format!("environment value {} is a boolean literal but the {:?} switch rejects it with {:?}", cand.esc(), a.action, e.kind())),
+            (Err(e), None) => {
+                if matches!(e.kind(), clap::error::ErrorKind::InvalidValue | clap::error::ErrorKind::ValueValidation | clap::error::ErrorKind::InvalidUtf8) {
+                    None
+                } else {
+                    Some(format!("environment value {} for a {:?} switch: rejected with {:?}, which is not a value error", cand.esc(), a.action, e.kind()))
+                }
+            }
+        };
+    }
     if !a.action.takes_values() {
         return None;
     }
@@ -693,7 +735,42 @@ fn exec_access(sc: &C04Sc, log: &mut Log, out: &mut Outcome) {
                     level = s;
                     m0 = sub;
                 }
-                None => break,
+                None => {
+                    // an EXTERNAL subcommand: its words are stored under the id "" with the type of the external
+                    // value parser (OsString unless the command declares another one) -- also when there are no
+                    // words at all; a wrong-type access fails and leaves them alone
+                    if level.has(CmdSetting::AllowExternalSubcommands) && matches!(sub.try_contains_id(""), Ok(true)) {
+                        let mut ext = sub.clone();
+                        let words = |m: &ArgMatches, string_typed: bool| -> Result<Option<Vec<String>>, String> {
+                            if string_typed {
+                                m.try_get_many::<String>("").map(|o| o.map(|v| v.cloned().collect())).map_err(|e| err_kind(&e).to_string())
+                            } else {
+                                m.try_get_many::<OsString>("").map(|o| o.map(|v| v.map(|x| esc(x.as_bytes())).collect())).map_err(|e| err_kind(&e).to_string())
+                            }
+                        };
+                        let string_typed = level.ext_parser != 0;
+                        let before = words(&ext, string_typed);
+                        out.comparisons += 1;
+                        out.count("op.external_subcommand_words_probed");
+                        if before.is_err() {
+                            out.violate("right-access-failed", "external-subcommand".to_string(), format!("external subcommand `{name}`: reading its words with the declared type fails: {before:?}"));
+                            return;
+                        }
+                        let wrong_get = ext.try_get_many::<u8>("").map(|o| o.map(|v| v.count()));
+                        let wrong_remove = ext.try_remove_many::<bool>("").map(|o| o.map(|v| v.count()));
+                        out.count("fault.wrong_type_access_on_external_subcommand");
+                        if wrong_get.is_ok() || wrong_remove.is_ok() {
+                            out.violate("wrong-type-not-rejected", "external-subcommand".to_string(), format!("external subcommand `{name}` with words {before:?}: try_get_many::<u8>(\"\") = {:?}, try_remove_many::<bool>(\"\") = {:?}; both must fail with Downcast", wrong_get.map_err(|e| err_kind(&e)), wrong_remove.map_err(|e| err_kind(&e))));
+                            return;
+                        }
+                        let after = words(&ext, string_typed);
+                        if after != before {
+                            out.violate("stored-values-disturbed", "external-subcommand".to_string(), format!("external subcommand `{name}`: words were {before:?}, after two failing wrong-type accesses they are {after:?}"));
+                            return;
+                        }
+                    }
+                    break;
+                }
             },
             None => break,
         }
